@@ -477,7 +477,7 @@ def selftest():
 def subchecks(tier, seed):
     q = tier == "quick"
     return [
-        SubCheck("moments", body_moments, strategy=_moments_strategy(), examples=20000 if q else 600000, cases=_pinned_moments(), shards=16 if q else 64),
+        SubCheck("moments", body_moments, strategy=_moments_strategy(), examples=20000 if q else 300000, cases=_pinned_moments(), shards=16 if q else 64),
         SubCheck("orders", body_orders, cases=_cases_orders(), exhaustive=True, shards=4),
-        SubCheck("dipole", body_dipole, strategy=_dipole_strategy(), examples=6000 if q else 150000, cases=_pinned_dipole(), shards=16 if q else 32),
+        SubCheck("dipole", body_dipole, strategy=_dipole_strategy(), examples=6000 if q else 80000, cases=_pinned_dipole(), shards=16 if q else 32),
     ]
